@@ -2,7 +2,7 @@
    ExtrOcamlBasic only: bool, option, unit, list, prod, sumbool, sumor map to the OCaml
    types; N / positive / nat stay Coq datatypes. *)
 From Coq Require Import ExtrOcamlBasic.
-From PG Require Import Base Mapping Spec Mapper CacheWriter CacheReader Stacktrace Java Metadata Sink Uuid Layout.
+From PG Require Import Base Mapping Spec Mapper CacheWriter CacheReader Stacktrace Java Metadata Sink Uuid Layout Domain.
 Extraction Language OCaml.
 Set Extraction AccessOpaque.
 Extraction "model.ml"
@@ -16,4 +16,4 @@ Extraction "model.ml"
   remap_text remap_typed depth
   deobfuscate format_sig
   has_line_info is_valid summarize
-  run_sink mapping_uuid layout_ok.
+  run_sink mapping_uuid layout_ok dom32 sizes_ok.
